@@ -138,5 +138,46 @@ func runC14(in sx.SX) (sx.SX, string) {
 			}
 		}
 	}
+	// the same through a whole tokenizer with string decoding on: the first token is the decoded string, and what
+	// follows it is tokenized as it is on its own
+	if fail == "" && sx.AsInt(l[0]) != 0 {
+		rr := []rune(rest)
+		var tk tokenizers.ITokenizer
+		mk := func() tokenizers.ITokenizer {
+			if sx.AsInt(l[0]) == 1 {
+				if q != '\'' && q != '"' {
+					return nil
+				}
+				return exprtok.NewExpressionTokenizer()
+			}
+			c := csv.NewCsvTokenizer()
+			c.SetQuoteSymbols([]rune{q})
+			return c
+		}
+		tk = mk()
+		if tk != nil && (len(rr) == 0 || rr[0] != q) {
+			tk.SetDecodeStrings(true)
+			toks := tk.TokenizeBuffer(enc + rest)
+			alone := mk()
+			alone.SetDecodeStrings(true)
+			after := alone.TokenizeBuffer(rest)
+			if len(toks) == 0 || toks[0].Value() != s {
+				v := "<none>"
+				if len(toks) > 0 {
+					v = sx.Quote(toks[0].Value())
+				}
+				fail = fmt.Sprintf("tokenizing %s with string decoding on: the first token is %s, the string was %s", sx.Quote(enc+rest), v, sx.Quote(s))
+			} else if len(toks)-1 != len(after) {
+				fail = fmt.Sprintf("tokenizing %s with string decoding on: %d tokens follow the string, %s alone gives %d", sx.Quote(enc+rest), len(toks)-1, sx.Quote(rest), len(after))
+			} else {
+				for i := range after {
+					if toks[i+1].Type() != after[i].Type() || toks[i+1].Value() != after[i].Value() {
+						fail = fmt.Sprintf("tokenizing %s with string decoding on: token %d after the string is %s, in %s alone it is %s", sx.Quote(enc+rest), i, sx.Quote(toks[i+1].Value()), sx.Quote(rest), sx.Quote(after[i].Value()))
+						break
+					}
+				}
+			}
+		}
+	}
 	return sx.L(sx.S(enc), sx.S(decS), sx.S(decEnc), sx.S(t1), sx.N(l1), sx.S(t2), sx.N(l2)), fail
 }
